@@ -378,6 +378,18 @@ class Monitors:
                 'ratio_class': 'ge1' if ri['kind'] == 'multiple' else 'sub',
                 'npulses_gt1': bool(npulses > 1)}
         keys.update(extra_keys or {})
+        if origin == 'cascade_pulsecopy_sub' and prob:
+            # one witness per call: the single mechanism (copies shifted by a pulse period that is
+            # not a whole turn) shows up in several checks at once
+            checks = sorted(prob)
+            case = dict(self.case, origin=origin, npulses=npulses, ratio=ri['ratio'], checks=prob,
+                        chopper=_describe(ch), pulse_frequency_hz=float(ri['fp_hz']),
+                        time_open_s=[float(x) for x in to[:64]],
+                        time_close_s=[float(x) for x in tc[:64]])
+            ctx.violation(f'{origin}.misplaced_openings',
+                          f'{origin} (ratio {ri["ratio"]:.6g}, npulses {npulses}): {checks}; first: '
+                          f'{prob[checks[0]]}'[:400], case, checks=checks, **keys)
+            return False
         for check, info in prob.items():
             case = dict(self.case, origin=origin, npulses=npulses, ratio=ri['ratio'], check=check,
                         info=info, chopper=_describe(ch), pulse_frequency_hz=float(ri['fp_hz']),
@@ -783,9 +795,10 @@ FINDING_PREDICATES = {
     # ... and for sub-harmonic choppers a pulse period is not a whole rotation, so the copies
     # land where the disk is closed / is at another slit (and whole-rotation copies repeat)
     'chopper_cascade.per_pulse_copy_subharmonic': lambda v: (
-        v['kind'].startswith('cascade_pulsecopy_sub.')
-        and _k(v).get('check') in ('closed_inside_interval', 'open_outside_interval', 'duration',
-                                   'slit_multiplicity', 'duplicate_opening', 'missing_opening')
+        v['kind'] == 'cascade_pulsecopy_sub.misplaced_openings'
+        and set(_k(v).get('checks') or ['?']) <= {
+            'closed_inside_interval', 'open_outside_interval', 'duration', 'slit_multiplicity',
+            'duplicate_opening', 'missing_opening'}
         and _k(v).get('per_pulse_copy_of_valid_single_pulse_openings') is True
         and _k(v).get('npulses_gt1') is True and _k(v).get('ratio_class') == 'sub'),
     # offsets (unit of 1/pulse_frequency) + openings (unit of 1/chopper frequency): scipp
